@@ -447,12 +447,18 @@ func (c *Conn) restoreReplayWindow() {
 			replaydetector.New(c.replayProtectionWindow, recordlayer.MaxSequenceNumber),
 		)
 	}
-	first := uint64(0)
-	if window := uint64(c.replayProtectionWindow); highest >= window {
-		first = highest - window + 1
+	// A record number has 48 bits; a position beyond that can only come from
+	// corrupted serialised bytes and is not something to walk towards.
+	if highest > recordlayer.MaxSequenceNumber {
+		highest = recordlayer.MaxSequenceNumber
 	}
-	for number := first; number <= highest; number++ {
-		if accept, ok := common.ReplayDetector[epoch].Check(number); ok {
+	count := highest + 1
+	if window := uint64(c.replayProtectionWindow); count > window {
+		count = window
+	}
+	first := highest + 1 - count
+	for offset := uint64(0); offset < count; offset++ {
+		if accept, ok := common.ReplayDetector[epoch].Check(first + offset); ok {
 			accept()
 		}
 	}
